@@ -62,7 +62,7 @@ def consumed(token):
         first = split_args(token[1:-1])[0]
         arg = first[:-2] if first.endswith(".0") else first
         args = [arg]
-    elif token[:2] in ("f(", "g(") and token.endswith(")"):
+    elif token[:2] in ("f(", "g(", "h(") and token.endswith(")"):
         args = split_args(token[2:-1])
     else:
         return []
@@ -73,21 +73,20 @@ def consumed(token):
 
 
 def requirements(a):
-    if a[:2] in ("f(", "g(") and a.endswith(")"):
+    if a[:2] in ("f(", "g(", "h(") and a.endswith(")"):
         return [[{a}]]
     if a.endswith(".0") or a.endswith(".1"):
         base = a[:-2]
         return [[{f"[{base}.0,{base}.1]"}]]
     if a.startswith("[") and a.endswith("]"):
         elems = split_args(a[1:-1])
-        alts = [{a}]  # the list is itself one job's output (an L job)
-        parts = set()
-        for e in elems:  # or a combined list of several jobs' outputs
-            for r in requirements(e):
-                parts |= r[0]
-        if parts:
-            alts.append(parts)
-        return [alts]
+        if (len(elems) == 2 and elems[0].endswith(".0") and elems[1].endswith(".1")
+                and elems[0][:-2] == elems[1][:-2]):
+            return [[{a}]]  # the list is itself one job's output (an L job)
+        reqs = []  # a plain input list, or a combined list of several jobs' outputs
+        for e in elems:
+            reqs.extend(requirements(e))
+        return reqs
     return []
 
 
